@@ -1,7 +1,7 @@
 """C19 — segmented fetch (DESIGN §4 C19)."""
 import ast
 
-from .common import ctx, returns, calls_in_ctx, reach_from_succ, site, srcs_text, bound_args, orient
+from .common import ctx, returns, calls_in_ctx, reach_from_succ, site, srcs_text, bound_args, orient, shared_obligations
 from ..flow import callee_attr
 from ..loader import AnalysisError, norm
 
@@ -61,6 +61,12 @@ def run(R):
     if aug is not None:
         _retry_counter(R, P, rt, aug, exprs, inst)
     _rest(R, P, g, rt, exprs)
+    # the fetcher runs on the legacy front-end: a Nack must reach it as a Nack, and a time-out of one fetch must not drop the
+    # pending entries of another fetch of the same name (obligations decided by the C10 / C03 rules)
+    R.ob('C19.SHR.1', 'shared with C10 / C03: a Nack header without reason is still a Nack for the legacy front-end; a timed-out waiter removes the PIT node '
+                      'only when no other Interest is pending in it')
+    shared_obligations(R, 'C19.SHR.1', 'C10', {'C10.MPT.1': lambda i: 'parse_lp_packet' in i})
+    shared_obligations(R, 'C19.SHR.1', 'C03', {'C03.MPT.1': lambda i: 'ndn.app.' in i or 'name_tree' in i})
 
 
 def _retry_counter(R, P, rt, aug, exprs, inst):
